@@ -87,7 +87,8 @@ def replaceAll (pf : Nat) (filename : Bytes) (replacer : List RInstr) (total : N
     | .ok r =>
       match replaceAll pf filename replacer total ms with
       | .ok rest => .ok ({ m with replacement := r } :: rest)
-      | e => e
+      | .panic t => .panic t
+      | .pfuel => .pfuel
     | .panic t => .panic t
     | .pfuel => .pfuel
 
@@ -123,7 +124,9 @@ def runCmd (pf vf : Nat) (filename : Bytes) (text : Bytes) : BCmd → Option (Re
   | .replace amt code replacer =>
     match findMatches pf vf code amt text with
     | some (.ok ms) => some (replaceAll pf filename replacer ms.length ms)
-    | r => r
+    | some (.panic t) => some (.panic t)
+    | some .pfuel => some .pfuel
+    | none => none
   | _ => some (.ok [])
 
 /-- `engine.Run`: results of all commands, concatenated -/
@@ -134,7 +137,11 @@ def runProgram (pf vf : Nat) (filename : Bytes) (text : Bytes) : List BCmd → O
     | some (.ok ms) =>
       match runProgram pf vf filename text cs with
       | some (.ok rest) => some (.ok (ms ++ rest))
-      | r => r
-    | r => r
+      | some (.panic t) => some (.panic t)
+      | some .pfuel => some .pfuel
+      | none => none
+    | some (.panic t) => some (.panic t)
+    | some .pfuel => some .pfuel
+    | none => none
 
 end Vore
